@@ -703,13 +703,14 @@ theorem disconnect_block_on_bytes {E : MW.LedBytes.Env} {c : Ctx} (R : RbEnv E c
     reads of filterTx commute: `filter_tx_reads_on_bytes`).  `FilterOut`: facts about the bytes the step produces (room in
     the block record before every AddRelevantTx, balances written back fit) -/
 theorem filter_block_on_bytes {E : MW.LedBytes.Env} {c : Ctx} (P : PendEnv E c.own) (O : RelOracle E c) {bs : BStore}
-    (hC : CanonS E bs) {ready : List Bytes} {b : Block} {hashB : Bytes} (hh : hashB.length = 32) (hid : E.N.blk hashB = b.id)
+    (hC : CanonS E bs) {ready : List Bytes} {b : Block} (hdom : O.dom b) {hashB : Bytes} (hh : hashB.length = 32)
+    (hid : E.N.blk hashB = b.id)
     (hht : b.height + 1 < collisionHeight) {time8 time4 : Nat} (ht8 : time8 < 256 ^ 8) (ht4 : time4 < 256 ^ 4)
     (hout : FilterOut P O bs ready b hashB time8) :
     (filterBlockB P O bs ready b hashB time8 time4).map (fun x => (absStore E x.1, x.2))
       = filterBlock c (absStore E bs) (ready.map E.N.wal) b ∧
     ∀ x, filterBlockB P O bs ready b hashB time8 time4 = .ok x → CanonS E x.1 :=
-  filterBlock_on_bytes P O hC hh hid hht ht8 ht4 hout
+  filterBlock_on_bytes P O hC hdom hh hid hht ht8 ht4 hout
 
 /-- (Round 6) the store reads of filterTx and of the follower commute: ExistCreditFromTx (a key of `c` under the 32-byte
     hash prefix), the pending transaction under a hash, the ready wallets read off bucket `ws` -/
